@@ -213,9 +213,14 @@ impl Backend {
     }
 }
 
-/// Is a background writer registered in the (user) TrieBuf?  Read from the derived Debug
-/// output (`join_handle: None|Some(..)`), the only window the public API offers.
+/// Is a background writer registered in the (user) TrieBuf?  A TrieBuf held directly is asked
+/// through the add-only hook `verif_writer_state`; behind a Layered (a Box<dyn Dictionary>) the
+/// only window is the derived Debug output (`join_handle: None|Some(..)`).
 fn writer_pending(b: &Backend) -> Option<bool> {
+    #[cfg(feature = "hooks")]
+    if let Backend::Buf(d) = b {
+        return Some(d.verif_writer_state().is_some());
+    }
     let s = b.debug();
     let i = s.rfind("join_handle: ")?;
     let rest = &s[i + "join_handle: ".len()..];
@@ -420,6 +425,10 @@ impl Runner {
         if again != got {
             self.fail("lookup-not-deterministic", i, format!("n={}", n));
         }
+        if fuzzy {
+            return; // the map reading of the property is about exact keys (a fuzzy Trie lookup may
+                    // legitimately return the same phrase from two different readings)
+        }
         // each phrase once
         let mut seen = BTreeSet::new();
         for p in &all {
@@ -427,9 +436,6 @@ impl Runner {
                 self.fail("lookup-duplicate-phrase", i, format!("{} twice in [{}]", fmt_text(p.as_str()), fmt_seq(all.iter().map(fmt_phrase))));
                 break;
             }
-        }
-        if fuzzy {
-            return; // the map reading of the property is about exact keys
         }
         let exp = self.rf.expected(k);
         for p in &all {
